@@ -272,6 +272,23 @@ def splice_unit(u, scratch, probes, wdir):
     if rules:
         text, rlog = vsplice.rewrite_defines(text, rules)
         info["rewrites"] = rlog
+    # statement ranges of large functions, extracted verbatim into functions of
+    # their own (appended to the translation unit)
+    extracted = []
+    for b in g.blocks:
+        if b.kind == "extract" and vcfile.when_ok(b.opts.get("when"), tags) and b.args[0] in fns:
+            spec = {}
+            for l in b.text.split("\n"):
+                m = re.match(r"^\s*(\w+)\s*:\s*(.*)$", l)
+                if m:
+                    spec[m.group(1)] = m.group(2)
+            body = vsplice.extract_statement(text, spec["from"], spec["start"])
+            extracted.append("/* extracted verbatim from %s(): statement starting at %r */\n%s %s(%s)\n{\n%s\n%s\n%s\n}\n"
+                             % (spec["from"], spec["start"], spec.get("returns_type", "void"), b.args[0], spec.get("params", "void"),
+                                spec.get("locals", ""), body, spec.get("return", "")))
+            info.setdefault("extractions", []).append("%s <- %s(): %d bytes verbatim" % (b.args[0], spec["from"], len(body)))
+    if extracted:
+        text = text + "\n/* ---- vsplice: extracted statement ranges ---- */\n" + "\n".join(extracted)
     c = vsplice.CFile(text, origin)
     tagdefs = "".join("#define VP_TAG_%s 1\n" % re.sub(r"\W", "_", t) for t in sorted(tags))
     for d in u.get("defs", "").split(";;"):
@@ -468,7 +485,7 @@ def run_unit(u, scratch, probes, tier):
     except (vsplice.SpliceError, vcfile.VCError, KeyError, OSError) as e:
         res["why"] = "splice: %s" % e
         return res
-    res["info"] = {k: info[k] for k in ("origin", "sha256", "rewrites", "inserted", "nloops", "tags") if k in info}
+    res["info"] = {k: info[k] for k in ("origin", "sha256", "rewrites", "inserted", "nloops", "tags", "extractions") if k in info}
     g = u["_group"]
     harness = u.get("harness")
     entry = harness or u.get("entry")
